@@ -475,12 +475,13 @@ def gLiteralSet : G :=
 
 def gLiterals : G := .alt (.ref nLiteralBasic) gLiteralSet
 
-def gMethodCall : G :=
-  .memo 2 false
-    (.map (fun v =>
-        let id := v.nth 0
-        mk "method_call" id.ident (Range.span id.rng (v.nth 3).rng) (v.nth 2).kids)
-      (seqL [.ref nIdentifier, .tok Kind.OBracket, sepListCtx (.ref nExpr) nExprRec, .tok Kind.CBracket]))
+def gMethodCallBody : G :=
+  .map (fun v =>
+      let id := v.nth 0
+      mk "method_call" id.ident (Range.span id.rng (v.nth 3).rng) (v.nth 2).kids)
+    (seqL [.ref nIdentifier, .tok Kind.OBracket, sepListCtx (.ref nExpr) nExprRec, .tok Kind.CBracket])
+
+def gMethodCall : G := .memo 2 false
 
 def gArrayAccess : G :=
   .map (fun v =>
@@ -507,7 +508,8 @@ def gUnaryPost : G :=
       mk "unary_op" op.ident (Range.span e.rng op.rng) [e])
     (seqL [.ref nDotOps, toks [Kind.Increment, Kind.Decrement]])
 
-def gPrimary : G := .memo 0 true (altL [gBracketClosure, .alt gUnaryPre gUnaryPost, .ref nDotOps, gLiterals])
+def gPrimaryBody : G := altL [gBracketClosure, .alt gUnaryPre gUnaryPost, .ref nDotOps, gLiterals]
+def gPrimary : G := .memo 0 true
 
 def gFactors : G := binOps (.ref nPrimary) nFactorTail
 def gFactorTail : G := binTail (toks [Kind.Asterisk, Kind.Divide, Kind.Modulus]) (.ref nPrimary) nFactorTail
@@ -528,7 +530,7 @@ def gAnd : G := binOps (.ref nCompare) nAndTail
 def gAndTail : G := binTail (toks [Kind.And]) (.ref nCompare) nAndTail
 def gOr : G := binOps gAnd nOrTail
 def gOrTail : G := binTail (toks [Kind.Or, Kind.Xor]) gAnd nOrTail
-def gExpr : G := .memo 1 true gOr
+def gExpr : G := .memo 1 true
 
 def gAssignment : G :=
   .map (fun v => binNode (v.nth 0) (v.nth 1) (v.nth 2))
@@ -799,59 +801,31 @@ def gOqlExpr : G := .alt gOqlSelect gOqlFetch
 
 /-! ### the table -/
 
-def Γ (n : Nat) : G :=
-  if n = nTop then gTop
-  else if n = nType then gType
-  else if n = nIdentList then gIdentList
-  else if n = nEnumRec then sepListRec gEnumVariant nEnumRec
-  else if n = nParamRec then sepListRec gParamDecl nParamRec
-  else if n = nPrimaryRec then sepListRec (.ref nPrimary) nPrimaryRec
-  else if n = nExprRec then sepListRec (.ref nExpr) nExprRec
-  else if n = nValueRec then sepListRec (.alt (.ref nLiteralBasic) (.ref nIdentifier)) nValueRec
-  else if n = nSelectRec then sepListRec gSelectItem nSelectRec
-  else if n = nFromRec then sepListRec gFromItem nFromRec
-  else if n = nAsteriskRec then sepListRec gAsterisk nAsteriskRec
-  else if n = nOrderRec then sepListRec gOrderByItem nOrderRec
-  else if n = nDotOpsRec then sepListRec (.ref nDotOps) nDotOpsRec
-  else if n = nRecFields then gRecFields
-  else if n = nMemberMods then gMemberMods
-  else if n = nMethodMods then gMethodMods
-  else if n = nBody then gBody
-  else if n = nStatement then gStatement
-  else if n = nExpr then gExpr
-  else if n = nPrimary then gPrimary
-  else if n = nDotOps then gDotOps
-  else if n = nDotTail then gDotTail
-  else if n = nFactorTail then gFactorTail
-  else if n = nTermTail then gTermTail
-  else if n = nBit1Tail then gBit1Tail
-  else if n = nBit2Tail then gBit2Tail
-  else if n = nShiftTail then gShiftTail
-  else if n = nCompareTail then gCompareTail
-  else if n = nAndTail then gAndTail
-  else if n = nOrTail then gOrTail
-  else if n = nComposedTail then binTail (.tok Kind.Plus) gComposedOperand nComposedTail
-  else if n = nForRangeTail then gForRangeTail
-  else if n = nForEachInTail then gForEachInTail
-  else if n = nIfLoop then gIfLoop
-  else if n = nIfUntil then gIfUntil
-  else if n = nUntilEndWhen then untilStop [Kind.EndWhen] nUntilEndWhen
-  else if n = nUntilEndSwitch then untilStop [Kind.EndSwitch] nUntilEndSwitch
-  else if n = nUntilEndFor then untilStop [Kind.EndFor, Kind.End] nUntilEndFor
-  else if n = nUntilEndWhile then untilStop [Kind.EndWhile, Kind.End] nUntilEndWhile
-  else if n = nUntilEndLoop then untilStop [Kind.EndLoop, Kind.End] nUntilEndLoop
-  else if n = nRepeatUntil then gRepeatUntil
-  else if n = nWhenBlocks then gWhenBlocks
-  else if n = nJoins then gJoins
-  else if n = nCompare then gCompare
-  else if n = nParamList then gParamList
-  else if n = nTypeBasic then gTypeBasic
-  else if n = nIdentifier then gIdentifier
-  else if n = nLiteralBasic then gLiteralBasic
-  else if n = nAnnotations then gAnnotations
-  else if n = nMethodCall then gMethodCall
-  else if n = nOqlExpr then gOqlExpr
-  else .eps Tree.none
+/-- the table, in the order of the nonterminal numbers above -/
+def tblΓ : List G :=
+  [ gTop, gType, gIdentList,
+    sepListRec gEnumVariant nEnumRec, sepListRec gParamDecl nParamRec,
+    sepListRec (.ref nPrimary) nPrimaryRec, sepListRec (.ref nExpr) nExprRec,
+    sepListRec (.alt (.ref nLiteralBasic) (.ref nIdentifier)) nValueRec,
+    sepListRec gSelectItem nSelectRec, sepListRec gFromItem nFromRec,
+    sepListRec gAsterisk nAsteriskRec, sepListRec gOrderByItem nOrderRec,
+    sepListRec (.ref nDotOps) nDotOpsRec,
+    gRecFields, gMemberMods, gMethodMods, gBody, gStatement, gExpr, gPrimary, gDotOps,
+    gDotTail, gFactorTail, gTermTail, gBit1Tail, gBit2Tail, gShiftTail, gCompareTail, gAndTail, gOrTail,
+    binTail (.tok Kind.Plus) gComposedOperand nComposedTail, gForRangeTail, gForEachInTail,
+    gIfLoop, gIfUntil,
+    untilStop [Kind.EndWhen] nUntilEndWhen, untilStop [Kind.EndSwitch] nUntilEndSwitch,
+    untilStop [Kind.EndFor, Kind.End] nUntilEndFor, untilStop [Kind.EndWhile, Kind.End] nUntilEndWhile,
+    untilStop [Kind.EndLoop, Kind.End] nUntilEndLoop,
+    gRepeatUntil, gWhenBlocks, gJoins, gCompare, gParamList, gTypeBasic, gIdentifier, gLiteralBasic,
+    gAnnotations, gMethodCall, gOqlExpr ]
+
+def Γ (n : Nat) : G := tblΓ.getD n (.eps Tree.none)
+
+/-- the bodies of the three memoised parsers (`ParseCache::{ParsePrimary, ParseExpr, ParseMethodCall}`) -/
+def tblΔ : List G := [gPrimaryBody, gOr, gMethodCallBody]
+
+def Δ (c : Nat) : G := tblΔ.getD c (.eps Tree.none)
 
 /-- fuel that provably suffices (T2); generous constants, the cost is one `Nat` -/
 def fuelFor (n : Nat) : Nat := (n + 2) * 40000
@@ -860,13 +834,13 @@ def rootOf (items : Tree) : Tree := mk "root" "" Range.zero items.kids
 
 /-- `parse_gold` with the real (memoising) context -/
 def parseGold (ts : List Tok) : Tree × List Diag × MSt :=
-  match runM Γ (fuelFor ts.length) (.ref nTop) ts {} with
+  match runM Γ Δ (fuelFor ts.length) (.ref nTop) ts {} with
   | (.ok _ v, d, s) => (rootOf v, d, s)
   | (_, d, s) => (mk "#stuck" "" Range.zero [], d, s)
 
 /-- `parse_gold` with a context that caches nothing -/
 def parseGoldNoMemo (ts : List Tok) : Tree × List Diag :=
-  match runP Γ (fuelFor ts.length) (.ref nTop) ts with
+  match runP Γ Δ (fuelFor ts.length) (.ref nTop) ts with
   | (.ok _ v, d) => (rootOf v, d)
   | (_, d) => (mk "#stuck" "" Range.zero [], d)
 
